@@ -10,18 +10,26 @@ N = "a816.parse.nodes."
 FUNCTIONS = [CPU + "Opcode.emit_value", CPU + "Opcode.get_opcode_byte", CPU + "Opcode.emit", CPU + "Opcode.supposed_length",
              CPU + "OpcodeWithoutOperand.emit", CPU + "OpcodeWithoutOperand.supposed_length", CPU + "guess_value_size",
              N + "ValueNodeProtocol.get_operand_size", N + "ExpressionNode.get_value_string_len", N + "ExpressionNode.get_value",
-             N + "OpcodeNode.__init__", N + "OpcodeNode._get_emitter", N + "OpcodeNode.emit", N + "OpcodeNode.pc_after"]
+             N + "OpcodeNode.__init__", N + "OpcodeNode._get_emitter", N + "OpcodeNode.emit", N + "OpcodeNode.pc_after",
+             "a816.parse.parser_states.parse_opcode", "a816.parse.parser_states.parse_operand_and_addressing", "a816.parse.parser_states._parse_expression",
+             "a816.parse.parser_states.parse_expression", "a816.parse.codegen.generate_opcode"]
 MIN_OBLIGATIONS = 3000
 EXPLANATION = ("From tokens on: per mnemonic of the live opcode table, the real OpcodeNode._get_emitter/emit/pc_after are executed symbolically "
                "for the full cross product addressing mode x index x width (present and absent cells) with a symbolic operand value; each "
                "cell must yield exactly the ISA opcode (independent matrix vf/specs/isa65816.py) followed by the little-endian operand, or be "
                "rejected, and every cell of the frozen supported set must be accepted.  Width inference and Opcode.emit on arbitrary cell "
-               "definitions are proved for all values.  Text -> (mode, index, size) (scanner + parse_opcode) is the bounded part.")
+               "definitions are proved for all values.  Operand SYNTAX -> addressing mode is proved on the real parse_opcode / parse_operand_and_addressing / "
+               "generate_opcode for every operand shape of the statement (29 token patterns incl. the malformed index combinations and parenthesised "
+               "sub-expressions), with and without a size suffix, letter case symbolic: the (mode, index) chosen denotes -- through the same form_of the table "
+               "obligations use -- exactly the ISA form the syntax denotes at each width, or nothing (then the table obligations reject it).  "
+               "Characters -> tokens (scanner) for instruction statements is the bounded part.")
 TRUSTED = ["vf/specs/isa65816.py (65c816 matrix, flat table cross-checked against the aaabbbcc group rule at start-up)", "vf/specs/le.py",
            "vf/specs/supported_set.py (frozen at the pinned commit)"]
 ASSUMPTIONS = ["eval_expression modelled as a function of (expression, environment) (vf/specs/stubs.py); verified separately in C06",
                "hex()/len(hex(v)) model: 2 + number of hex digits, threshold axioms d <= k <=> v < 16**k", "struct.pack model",
                "operand values 0 <= v < 2**24 for the table obligations (the statement's widths are 1-3 bytes); wider .l operands may be refused",
+               "syntax obligations: operand terms are identifier tokens (the value of an expression is C06's subject); composition syntax -> node -> bytes is by equality of the "
+               "OpcodeNode fields (mnemonic, mode, index, size) between statement_tokens_contract's conclusion and table_mnemonic_contract's hypothesis (argued, not machine-checked)",
                "bounded: characters -> tokens -> (mode, index, size) for each operand shape x suffix x case x spacing through the real scanner/parser"]
 
 
@@ -65,8 +73,52 @@ def shape_node(m, mode, idx, size):
     return sh
 
 
+def _toks(B, items):
+    return [B.inst("a816.parse.tokens.Token", type=B.enum("a816.parse.tokens.TokenType", tt), value=val, position=None) for tt, val in items]
+
+
+def shape_statement(shape, with_size):
+    """token list of `MNEMONIC[.size] <operand shape>`: size letter and index letters symbolic in case; operand terms are identifiers"""
+    def sh(B):
+        size = B.symstr("size", 1, "bBwWlL") if with_size else None
+        reg = lambda name, letters: B.symstr(name, 1, letters)
+        e, f = ("IDENTIFIER", "e"), ("IDENTIFIER", "f")
+        plus, minus = ("OPERATOR", "+"), ("OPERATOR", "-")
+        LP, RP, LB, RB, SH = ("LPAREN", "("), ("RPAREN", ")"), ("LBRAKET", "["), ("RBRAKET", "]"), ("SHARP", "#")
+        ix = lambda name, letters: ("ADDRESSING_MODE_INDEX", reg(name, letters))
+        X, Y, S_ = "xX", "yY", "sS"
+        pat = {
+            "implied": lambda: [], "#e": lambda: [SH, e], "e": lambda: [e], "e,x": lambda: [e, ix("i", X)], "e,y": lambda: [e, ix("i", Y)], "e,s": lambda: [e, ix("i", S_)],
+            "(e)": lambda: [LP, e, RP], "(e),y": lambda: [LP, e, RP, ix("i", Y)], "(e),x": lambda: [LP, e, RP, ix("i", X)], "(e),s": lambda: [LP, e, RP, ix("i", S_)],
+            "[e]": lambda: [LB, e, RB], "[e],y": lambda: [LB, e, RB, ix("i", Y)], "[e],x": lambda: [LB, e, RB, ix("i", X)],
+            "(e,x)": lambda: [LP, e, ix("j", X), RP], "(e,s),y": lambda: [LP, e, ix("j", S_), RP, ix("i", Y)], "(e,y)": lambda: [LP, e, ix("j", Y), RP], "(e,s)": lambda: [LP, e, ix("j", S_), RP],
+            "(e,x),y": lambda: [LP, e, ix("j", X), RP, ix("i", Y)], "(e,y),y": lambda: [LP, e, ix("j", Y), RP, ix("i", Y)], "(e,x),x": lambda: [LP, e, ix("j", X), RP, ix("i", X)],
+            "(e,s),x": lambda: [LP, e, ix("j", S_), RP, ix("i", X)], "#e,x": lambda: [SH, e, ix("i", X)], "#e,y": lambda: [SH, e, ix("i", Y)],
+            "(e)+f": lambda: [LP, e, RP, plus, f], "(e)+f,x": lambda: [LP, e, RP, plus, f, ix("i", X)], "e+f": lambda: [e, plus, f], "(e+f),y": lambda: [LP, e, plus, f, RP, ix("i", Y)],
+            "[e+f]": lambda: [LB, e, plus, f, RB], "#-e": lambda: [SH, minus, e],
+        }[shape]()
+        head = [("OPCODE_NAKED" if shape == "implied" else "OPCODE", "NoP" if shape == "implied" else "LdA")]
+        if with_size:
+            head.append(("OPCODE_SIZE", size))
+        toks = _toks(B, head + pat + [("EOF", "")])
+        body = toks[len(head):-1]
+        # the operand expression: everything that is not bracket syntax, '#', or an index register -- except parentheses that belong to the expression
+        if shape in ("(e)+f", "(e)+f,x"):
+            operand = [t for t, (tt, _v) in zip(body, pat) if tt != "ADDRESSING_MODE_INDEX"]
+        else:
+            operand = [t for t, (tt, _v) in zip(body, pat) if tt in ("IDENTIFIER", "OPERATOR")]
+        p = B.inst("a816.parse.parser.Parser", tokens=B.list(toks), pos=0, initial_state=None)
+        return {"p": p, "resolver": shapes.resolver(B), "shape": shape, "size_text": size, "mnemonic": "nop" if shape == "implied" else "lda", "operand_tokens": B.list(operand)}
+    return sh
+
+
 def cases(E):
     cs = []
+    from vf.specs import syntax
+    for shp in syntax.SHAPES:
+        for ws in (False, True):
+            cs.append(Case(H + "statement_tokens_contract", f"{shp}{' with size suffix' if ws else ''}", shape_statement(shp, ws),
+                           target=["a816.parse.parser_states.parse_opcode", "a816.parse.parser_states.parse_operand_and_addressing", "a816.parse.codegen.generate_opcode"], group="syntax"))
     table = E.lifter.module("a816.cpu.cpu_65c816").snes_opcode_table
     from vf.specs import isa65816
     for m in sorted(table):
@@ -91,7 +143,9 @@ def cases(E):
     return cs
 
 
-OPTIONAL_CHECKS = {"table_mnemonic_contract": ["supported_cell_accepted", "only_isa_instructions", "opcode_byte", "implied_is_one_byte", "operand_le"],
+OPTIONAL_CHECKS = {"statement_tokens_contract": ["only_malformed_shapes_are_refused_by_the_parser", "whole_statement_consumed", "one_node", "mnemonic_lower_cased", "no_suffix_no_size",
+                                                 "suffix_is_the_size", "mode_denotes_the_syntax_form", "no_operand", "operand_is_the_operand_tokens", "operand_resolver"],
+                   "table_mnemonic_contract": ["supported_cell_accepted", "only_isa_instructions", "opcode_byte", "implied_is_one_byte", "operand_le"],
                    "table_mnemonic_nosuffix_contract": ["supported_cell_accepted_nosuffix", "only_isa_instructions_nosuffix", "opcode_byte_nosuffix", "operand_le_nosuffix"],
                    "opcode_node_size_agreement_contract": ["size_agreement"],
                    "opcode_emit_contract": ["absent_cell_refused", "refusal_only_for_long_out_of_range", "present_cell", "opcode_then_operand", "length_agreement"],
@@ -106,6 +160,10 @@ def bounded(tier, seed):
 def mutants():
     from vf.pyvc.mutate import textual
     return [
+        Mutant("parse_operand:inner-index-mode-for-any-register", "a816.parse.parser_states.parse_opcode", textual("if addressing_mode == AddressingMode.dp_or_sr_indirect_indexed and inner_index != 's':", "if False:"), only_harness="statement_tokens"),
+        Mutant("parse_operand:brackets-parsed-as-parentheses", "a816.parse.parser_states.parse_operand_and_addressing", textual("addressing_mode = AddressingMode.indirect_long", "addressing_mode = AddressingMode.indirect"), only_harness="statement_tokens"),
+        Mutant("generate_opcode:index-dropped", "a816.parse.codegen.generate_opcode", textual("index=node.index, ", ""), only_harness="statement_tokens"),
+        Mutant("parse_opcode:size-suffix-ignored", "a816.parse.parser_states.parse_opcode", textual("value_size=size if size is not None and is_value_size(size) else None", "value_size=None"), only_harness="statement_tokens"),
         Mutant("emit_value:word-big-endian", CPU + "Opcode.emit_value", textual("'<H', value & 65535", "'>H', value & 65535"), only_harness="emit_value"),
         Mutant("get_operand_size:<=2 -> <2", N + "ValueNodeProtocol.get_operand_size", textual("value_length <= 2", "value_length < 2"), only_harness="operand_size"),
         Mutant("get_opcode_byte:None-cell-falls-through", CPU + "Opcode.get_opcode_byte", textual("if opcode_byte is None:", "if opcode_byte is None and False:"), only_harness="opcode_emit"),
